@@ -34,7 +34,7 @@ Section GenCorrect.
   Hypothesis den_add : forall R e, okR R -> oke e -> okR (addaff R e) /\ den (addaff R e) = madd (den R) (dena e).
   Hypothesis dena_neg : forall e, oke e -> oke (fst e, f_neg fo (snd e)) /\ dena (fst e, f_neg fo (snd e)) = mneg (dena e).
   Hypothesis den_copy : forall e, oke e -> okR (point_copy_affine F fo e) /\ den (point_copy_affine F fo e) = dena e.
-  Hypothesis den_inf : den (point_infinity F fo) = smul 0.
+  Hypothesis den_inf : okR (point_infinity F fo) /\ den (point_infinity F fo) = smul 0.
 
   Notation dflt := (f_zero fo, f_zero fo).
   (* a row with weight wgt: entry j denotes [(j+1) wgt]G *)
@@ -169,7 +169,7 @@ Section GenCorrect.
   Qed.
 
   Theorem mul_generator_correct_partial : forall k, 0 <= k < 2^256 ->
-    exists R, point_mul_generator F fo addaff tab k = Some R /\ den R = smul k.
+    exists R, point_mul_generator F fo addaff tab k = Some R /\ okR R /\ den R = smul k.
   Proof.
     intros k Hk. unfold point_mul_generator.
     rewrite (booth_digits_limbs_7 k Hk). unfold booth_digits_v. change (booth_n 7) with 37%nat.
@@ -188,7 +188,8 @@ Section GenCorrect.
       change (2^(7 * Z.of_nat 37)) with (2^259). lia.
     - discriminate.
     - rewrite E. rewrite Hsum, Z.add_0_l in A, B. destruct Ri'.
-      + exists (point_infinity F fo). split; [reflexivity|]. rewrite den_inf. f_equal. symmetry. apply A. reflexivity.
+      + exists (point_infinity F fo). split; [reflexivity|]. destruct den_inf as [OI EI]. split; [exact OI|].
+        rewrite EI. f_equal. symmetry. apply A. reflexivity.
       + exists R'. split; [reflexivity|]. apply B. reflexivity.
   Qed.
 End GenCorrect.
@@ -208,6 +209,224 @@ Proof.
               ltac:(intros; split; [exact I | reflexivity])
               ltac:(intros; split; [exact I | reflexivity])
               ltac:(intros; split; [exact I | reflexivity])
-              ltac:(reflexivity) sm2_pre_table TL TO k Hk) as (R & E & _).
+              ltac:(split; [exact I | reflexivity]) sm2_pre_table TL TO k Hk) as (R & E & _).
   exists R. exact E.
+Qed.
+
+(* ---------- sm2_z256_point_mul (w = 5 signed windows over the table [1..16]P built by
+   sm2_z256_point_mul_pre_compute) computes [k]P for every 256-bit k, PROVIDED the point-level
+   operations mean what they should (named premises).  Covered: both branches of the table
+   construction, the top-window handling, five doublings per window, signed digits. ---------- *)
+Section MulCorrect.
+  Variable F : Type.
+  Variable fo : fops F.
+  Variable addaff : jpoint F -> apoint F -> jpoint F.
+  Variable M : Type.
+  Variable madd : M -> M -> M.
+  Variable mneg : M -> M.
+  Variable smul : Z -> M.                       (* k |-> [k]P *)
+  Variable okR : jpoint F -> Prop.
+  Variable den : jpoint F -> M.
+  Hypothesis smul_add : forall a b, smul (a + b) = madd (smul a) (smul b).
+  Hypothesis smul_neg : forall a, smul (- a) = mneg (smul a).
+  Hypothesis den_dbl : forall R, okR R -> okR (point_dbl F fo R) /\ den (point_dbl F fo R) = madd (den R) (den R).
+  Hypothesis den_add : forall R Q, okR R -> okR Q ->
+    okR (point_add F fo R Q) /\ den (point_add F fo R Q) = madd (den R) (den Q).
+  Hypothesis den_neg : forall Q, okR Q -> okR (point_neg F fo Q) /\ den (point_neg F fo Q) = mneg (den Q).
+  Hypothesis den_zero : okR (point_zero F fo) /\ den (point_zero F fo) = smul 0.
+
+  Variables X Y Zc : F.
+  Notation P := (X, Y, Zc).
+  Hypothesis P_ok : okR P.
+  Hypothesis P_den : den P = smul 1.
+  (* the mixed addition with the affine view of P (used when Z = mont(1)) *)
+  Hypothesis den_addaff : forall R, okR R ->
+    okR (addaff R (X, Y)) /\ den (addaff R (X, Y)) = madd (den R) (smul 1).
+
+  Definition means (R : jpoint F) (n : Z) : Prop := okR R /\ den R = smul n.
+
+  Lemma means_dbl : forall R n, means R n -> means (point_dbl F fo R) (2 * n).
+  Proof.
+    intros R n [O E]. destruct (den_dbl R O) as [O2 E2]. split; [exact O2|].
+    rewrite E2, E, <- smul_add. f_equal. ring.
+  Qed.
+  Lemma means_add : forall R Q n m, means R n -> means Q m -> means (point_add F fo R Q) (n + m).
+  Proof.
+    intros R Q n m [O E] [O' E']. destruct (den_add R Q O O') as [O2 E2]. split; [exact O2|].
+    rewrite E2, E, E', <- smul_add. reflexivity.
+  Qed.
+  Lemma means_sub : forall R Q n m, means R n -> means Q m -> means (point_sub F fo R Q) (n - m).
+  Proof.
+    intros R Q n m HR [O' E']. unfold point_sub. destruct (den_neg Q O') as [O2 E2].
+    replace (n - m) with (n + - m) by ring. apply means_add; [exact HR|].
+    split; [exact O2|]. rewrite E2, E', <- smul_neg. reflexivity.
+  Qed.
+  Lemma means_addaff : forall R n, means R n -> means (addaff R (X, Y)) (n + 1).
+  Proof.
+    intros R n [O E]. destruct (den_addaff R O) as [O2 E2]. split; [exact O2|].
+    rewrite E2, E, <- smul_add. reflexivity.
+  Qed.
+  Lemma means_P : means P 1. Proof. split; assumption. Qed.
+
+  (* the table: entry j denotes [j+1]P *)
+  Definition table_ok (T : list (jpoint F)) : Prop :=
+    length T = 16%nat /\ forall j, (j < 16)%nat -> means (nth j T (point_zero F fo)) (Z.of_nat j + 1).
+
+  Lemma pre_compute_ok : table_ok (pre_compute F fo addaff P).
+  Proof.
+    unfold pre_compute.
+    pose proof means_addaff as A.
+    pose proof means_P as M1.
+    destruct (f_eqb fo Zc (f_one fo)).
+    - (* affine branch *)
+      set (T0 := (X, Y, Zc)) in *.
+      pose proof (means_dbl _ _ M1) as M2. set (T1 := point_dbl F fo T0) in *.
+      pose proof (A _ _ M2) as M3. set (T2 := addaff T1 (X, Y)) in *.
+      pose proof (means_dbl _ _ M2) as M4. set (T3 := point_dbl F fo T1) in *.
+      pose proof (A _ _ M4) as M5. set (T4 := addaff T3 (X, Y)) in *.
+      pose proof (means_dbl _ _ M3) as M6. set (T5 := point_dbl F fo T2) in *.
+      pose proof (A _ _ M6) as M7. set (T6 := addaff T5 (X, Y)) in *.
+      pose proof (means_dbl _ _ M4) as M8. set (T7 := point_dbl F fo T3) in *.
+      pose proof (A _ _ M8) as M9. set (T8 := addaff T7 (X, Y)) in *.
+      pose proof (means_dbl _ _ M5) as M10. set (T9 := point_dbl F fo T4) in *.
+      pose proof (A _ _ M10) as M11. set (T10 := addaff T9 (X, Y)) in *.
+      pose proof (means_dbl _ _ M6) as M12. set (T11 := point_dbl F fo T5) in *.
+      pose proof (A _ _ M12) as M13. set (T12 := addaff T11 (X, Y)) in *.
+      pose proof (means_dbl _ _ M7) as M14. set (T13 := point_dbl F fo T6) in *.
+      pose proof (A _ _ M14) as M15. set (T14 := addaff T13 (X, Y)) in *.
+      pose proof (means_dbl _ _ M8) as M16. set (T15 := point_dbl F fo T7) in *.
+      split; [reflexivity|]. intros j Hj.
+      do 16 (destruct j as [|j]; [cbn [nth Z.of_nat]; assumption|]). lia.
+    - (* general branch *)
+      set (t1 := (X, Y, Zc)) in *.
+      pose proof (means_dbl _ _ M1) as M2. set (t2 := point_dbl F fo t1) in *.
+      pose proof (means_dbl _ _ M2) as M4. set (t4 := point_dbl F fo t2) in *.
+      pose proof (means_dbl _ _ M4) as M8. set (t8 := point_dbl F fo t4) in *.
+      pose proof (means_dbl _ _ M8) as M16. set (t16 := point_dbl F fo t8) in *.
+      pose proof (means_add _ _ _ _ M2 M1) as M3. set (t3 := point_add F fo t2 t1) in *.
+      pose proof (means_dbl _ _ M3) as M6. set (t6 := point_dbl F fo t3) in *.
+      pose proof (means_dbl _ _ M6) as M12. set (t12 := point_dbl F fo t6) in *.
+      pose proof (means_add _ _ _ _ M3 M2) as M5. set (t5 := point_add F fo t3 t2) in *.
+      pose proof (means_dbl _ _ M5) as M10. set (t10 := point_dbl F fo t5) in *.
+      pose proof (means_add _ _ _ _ M4 M3) as M7. set (t7 := point_add F fo t4 t3) in *.
+      pose proof (means_dbl _ _ M7) as M14. set (t14 := point_dbl F fo t7) in *.
+      pose proof (means_add _ _ _ _ M4 M5) as M9. set (t9 := point_add F fo t4 t5) in *.
+      pose proof (means_add _ _ _ _ M6 M5) as M11. set (t11 := point_add F fo t6 t5) in *.
+      pose proof (means_add _ _ _ _ M7 M6) as M13. set (t13 := point_add F fo t7 t6) in *.
+      pose proof (means_add _ _ _ _ M8 M7) as M15. set (t15 := point_add F fo t8 t7) in *.
+      split; [reflexivity|]. intros j Hj.
+      do 16 (destruct j as [|j]; [cbn [nth Z.of_nat]; assumption|]). lia.
+  Qed.
+
+  (* the window loop: Horner evaluation with radix 32 *)
+  Fixpoint lead5 (L : list Z) : Prop :=
+    match L with [] => True | d :: L' => 0 <= d /\ (d = 0 -> lead5 L') end.
+  Fixpoint horner (L : list Z) (acc : Z) : Z :=
+    match L with [] => acc | d :: L' => horner L' (32 * acc + d) end.
+
+  Lemma entry5 : forall T d, table_ok T -> 0 < d <= 16 ->
+    means (nth (Z.to_nat (d - 1)) T (point_zero F fo)) d.
+  Proof.
+    intros T d [_ HT] Hd. pose proof (HT (Z.to_nat (d - 1)) ltac:(lia)) as H.
+    rewrite Z2Nat.id in H by lia. replace (d - 1 + 1) with d in H by ring. exact H.
+  Qed.
+
+  Lemma mul_loop_correct : forall T, table_ok T -> forall L R Rinf acc,
+    Forall (fun d => -16 <= d <= 16) L ->
+    (Rinf = true -> acc = 0 /\ lead5 L) ->
+    (Rinf = false -> means R acc) ->
+    exists R' Rinf', mul_loop F fo T L R Rinf = Some (R', Rinf') /\
+      (Rinf' = true -> horner L acc = 0) /\
+      (Rinf' = false -> means R' (horner L acc)).
+  Proof.
+    intros T HT. induction L as [|d L IH]; intros R Rinf acc HL Ht Hf.
+    - cbn [mul_loop horner]. exists R, Rinf. split; [reflexivity|].
+      split; intro E; [apply Ht in E; lia | apply Hf in E; exact E].
+    - inversion HL as [|? ? Hd HL']; subst. cbn [mul_loop horner]. destruct Rinf.
+      + destruct (Ht eq_refl) as (-> & Hpos & Hlead). rewrite Z.mul_0_r, Z.add_0_l.
+        destruct (Z.eqb_spec d 0) as [->|Hn0].
+        * apply (IH R true 0 HL'); [intro; split; [reflexivity | apply Hlead; reflexivity] | discriminate].
+        * destruct (Z.ltb_spec d 0); [lia|].
+          apply (IH _ false d HL'); [discriminate | intro; apply entry5; [exact HT | lia]].
+      + pose proof (Hf eq_refl) as HR.
+        pose proof (means_dbl _ _ (means_dbl _ _ (means_dbl _ _ (means_dbl _ _ (means_dbl _ _ HR))))) as H32.
+        replace (2 * (2 * (2 * (2 * (2 * acc))))) with (32 * acc) in H32 by ring.
+        set (R5 := point_dbl F fo (point_dbl F fo (point_dbl F fo (point_dbl F fo (point_dbl F fo R))))) in *.
+        destruct (Z.gtb_spec d 0) as [Hp|Hnp].
+        * apply (IH _ false (32 * acc + d) HL'); [discriminate|].
+          intro. apply means_add; [exact H32 | apply entry5; [exact HT | lia]].
+        * destruct (Z.ltb_spec d 0) as [Hneg|Hz].
+          -- apply (IH _ false (32 * acc + d) HL'); [discriminate|].
+             intro. replace (32 * acc + d) with (32 * acc - (- d)) by ring.
+             apply means_sub; [exact H32 | apply entry5; [exact HT | lia]].
+          -- assert (d = 0) by lia. subst d. rewrite Z.add_0_r.
+             apply (IH _ false (32 * acc) HL'); [discriminate | intro; exact H32].
+  Qed.
+
+  (* Horner over the most-significant-first digits = the Booth sum *)
+  Fixpoint bs32 (ds : list Z) : Z := match ds with [] => 0 | d :: r => d + 32 * bs32 r end.
+  Lemma horner_app : forall L1 L2 acc, horner (L1 ++ L2) acc = horner L2 (horner L1 acc).
+  Proof. induction L1; intros; cbn [app horner]; auto. Qed.
+  Lemma horner_rev : forall ds, horner (rev ds) 0 = bs32 ds.
+  Proof.
+    induction ds as [|d r IH]; cbn [rev bs32 horner]; [reflexivity|].
+    rewrite horner_app, IH. cbn [horner]. ring.
+  Qed.
+  Lemma booth_sum_bs32 : forall ds i, 0 <= i -> booth_sum 5 i ds = 2^(5 * i) * bs32 ds.
+  Proof.
+    induction ds as [|d r IH]; intros i Hi; cbn [booth_sum bs32]; [ring|].
+    rewrite IH by lia. replace (5 * (i + 1)) with (5 * i + 5) by ring.
+    rewrite Z.pow_add_r by lia. change (2^5) with 32. ring.
+  Qed.
+
+  Lemma lead5_rev_digits : forall k n, 0 <= k ->
+    (forall i, (i < n)%nat -> (forall j, (i < j < n)%nat -> booth_v k 5 (Z.of_nat j) = 0) ->
+               0 <= booth_v k 5 (Z.of_nat i)) ->
+    lead5 (rev (map (fun i => booth_v k 5 (Z.of_nat i)) (seq 0 n))).
+  Proof.
+    intros k n Hk. induction n as [|n IH]; intros H; [exact I|].
+    rewrite seq_S, map_app, rev_app_distr. cbn [map rev app lead5 plus]. split.
+    - apply H; [lia | intros j Hj; lia].
+    - intro Z0. apply IH. intros i Hi Hz. apply H; [lia|].
+      intros j Hj. destruct (Nat.eq_dec j n) as [->|Nj]; [exact Z0 | apply Hz; lia].
+  Qed.
+
+  Theorem point_mul_correct_partial : forall k, 0 <= k < 2^256 ->
+    exists R, point_mul F fo addaff k P = Some R /\ okR R /\ den R = smul k.
+  Proof.
+    intros k Hk. unfold point_mul, point_mul_ex.
+    rewrite (booth_digits_limbs_5 k Hk). unfold booth_digits_v. change (booth_n 5) with 52%nat.
+    set (ds := map (fun i => booth_v k 5 (Z.of_nat i)) (seq 0 52)).
+    assert (Hsum : horner (rev ds) 0 = k).
+    { rewrite horner_rev. pose proof (booth_sum_5 k Hk) as S. unfold booth_digits_v in S.
+      change (booth_n 5) with 52%nat in S. fold ds in S. rewrite booth_sum_bs32 in S by lia.
+      change (2^(5 * 0)) with 1 in S. lia. }
+    destruct (mul_loop_correct _ pre_compute_ok (rev ds) (point_zero F fo) true 0) as (R' & Ri' & E & A & B).
+    - apply Forall_rev. unfold ds. apply Forall_forall. intros d Hd. apply in_map_iff in Hd.
+      destruct Hd as (i & <- & _). apply booth_range_5; lia.
+    - intros _. split; [reflexivity|]. unfold ds. apply lead5_rev_digits; [lia|]. intros i Hi Hz.
+      apply (leading_digit_nonneg 5 ltac:(lia) k ltac:(lia) 52%nat i); auto.
+      change (2^(5 * Z.of_nat 52)) with (2^260). lia.
+    - discriminate.
+    - rewrite E. rewrite Hsum in A, B. destruct Ri'.
+      + exists (point_zero F fo). split; [reflexivity|]. destruct den_zero as [O Z0].
+        split; [exact O|]. rewrite Z0. f_equal. symmetry. apply A. reflexivity.
+      + exists R'. split; [reflexivity|]. apply B. reflexivity.
+  Qed.
+End MulCorrect.
+
+(* ---------- sm2_z256_point_mul_sum: [s]G by the fixed-base routine, [t]P by the windowed
+   routine, one full addition ---------- *)
+Theorem point_mul_sum_correct_partial :
+  forall (F : Type) (fo : fops F) (addaff : jpoint F -> apoint F -> jpoint F) (tab : list (list (apoint F)))
+         (M : Type) (madd : M -> M -> M) (okR : jpoint F -> Prop) (den : jpoint F -> M) (gs pt : M)
+         (t : Z) (P : jpoint F) (s : Z),
+  (forall R Q, okR R -> okR Q -> okR (point_add F fo R Q) /\ den (point_add F fo R Q) = madd (den R) (den Q)) ->
+  (exists R, point_mul_generator F fo addaff tab s = Some R /\ okR R /\ den R = gs) ->
+  (exists Q, point_mul F fo addaff t P = Some Q /\ okR Q /\ den Q = pt) ->
+  exists R, point_mul_sum F fo addaff tab t P s = Some R /\ okR R /\ den R = madd gs pt.
+Proof.
+  intros F fo addaff tab M madd okR den gs pt t P s Hadd (R & ER & OR & DR) (Q & EQ & OQ & DQ).
+  unfold point_mul_sum. rewrite ER, EQ. exists (point_add F fo R Q). split; [reflexivity|].
+  destruct (Hadd R Q OR OQ) as [O E]. split; [exact O|]. rewrite E, DR, DQ. reflexivity.
 Qed.
